@@ -81,8 +81,17 @@ def _agree(env, ref, probe_ids):
         return hx.fail("len", got=len(env), exp=len(ref))
     if not hx.same_seq(list(env), ref):
         return hx.fail("iteration order", got=[a.id for a in env], exp=[a.id for a in ref])
+    lst = env.get_agents()
+    if not hx.same_seq(lst, ref):
+        return hx.fail("get_agents()", got=[a.id for a in lst])
+    # the listing is the caller's to modify, and shuffling returns its own list: neither disturbs later listings
+    lst.reverse()
+    lst.append(None)
+    env.model.random = _FixedRandom()
+    env.shuffle()
     if not hx.same_seq(env.get_agents(), ref):
-        return hx.fail("get_agents()", got=[a.id for a in env.get_agents()])
+        return hx.fail("get_agents() after the caller modified an earlier listing / after shuffle()",
+                       got=[getattr(a, "id", a) for a in env.get_agents()], exp=[a.id for a in ref])
     for pid in probe_ids:
         exp = None
         for a in ref:
@@ -100,6 +109,16 @@ def _agree(env, ref, probe_ids):
             except AgentNotFoundError:
                 pass
     return True
+
+
+class _FixedRandom:
+    """model generator for _agree(): shuffle reverses (a fixed, non-identity permutation)"""
+
+    def shuffle(self, x):
+        x.reverse()
+
+    def choice(self, seq):
+        return seq[-1]
 
 
 IDS = ["i0", "i1", "i2", "i3"]
